@@ -20,7 +20,8 @@ Back(mm) == LET ns == EncodeRoot(mm, <<>>, EO) IN Decode(ns[1], DefDec)
 \* a Map whose single key holds a LIST with a non-map member: its encoding is wrapped in the default root
 ML == VM(RK :> VL(<<VS(<<"x">>), b1>>))
 \* the list <<M1, M2>> (and, when b2 is still empty, the one-Map lists <<M1>>, <<ML>> and <<ML, M1>>)
-Lists == IF b2 = EmptyMap THEN {<<M1>>, <<M1, M2>>, <<ML>>, <<ML, M1>>} ELSE {<<M1, M2>>}
+\* (and lists in which an EMPTY Map is not the last member: JSON "{}", XML <doc/>)
+Lists == IF b2 = EmptyMap THEN {<<M1>>, <<M1, M2>>, <<ML>>, <<ML, M1>>, <<EmptyMap, M1>>} ELSE {<<M1, M2>>}
 \* theorem: reading back the written XML file gives one Map per written Map, in order, each the fixed point of its own round trip
 ThmXmlBack == \A ms \in Lists : \A i \in 1..Len(ms) : ~XmlErr(ms[i]) =>
                  LET bk == Back(ms[i]) IN Decode(EncodeRoot(bk, <<>>, EO)[1], DefDec) = bk
